@@ -5,6 +5,21 @@ HERE = os.path.dirname(os.path.dirname(os.path.abspath(__file__)))
 
 # id -> (category, technique, level text, level note, design ref)
 CHECKS = {
+ "C05": ("exploration",
+   "stateful property-based testing (proptest) against a model edge set; generated thread scripts + schedules under a deterministic scheduler that owns the interleaving at yield hooks inside/before the adjacency read-modify-write; real-thread stress",
+   "Sequential part: generated node/edge create/update/delete sequences (self-loops, parallel edges, directed and undirected); after every operation get_edge, all_edges, all_nodes, edges_of in all directions, degrees, neighbors (typed and untyped) and a BFS traverse must be exactly what the model edge set implies, plus order-free structural invariants read from the store. Concurrent parts: 2-8 scripted threads over <=5 shared nodes run under the harness's deterministic scheduler, which switches threads at the graph.adj.pre (before an adjacency update) or graph.adj.rmw (between the list read and write-back) hooks and at operation boundaries according to a generated schedule; at quiescence every edge whose creation returned Ok and that nothing deleted must exist and be listed by both endpoints in the right direction lists, deleted edges must be gone, and the structural invariants must hold. A real-thread stress part hammers one hub.",
+   "The scheduler owns the interleaving only at the hooked points and operation boundaries; other windows are reached only by the probabilistic stress part. With the window locked, threads parked inside it make others block and the scheduler falls back to a grace period (timing-dependent, fewer cases). Known finding: create_edge has no exclusion against a concurrent delete_node (signatures carrying ':with-concurrent-delete-node').",
+   "DESIGN.md section 1 C05"),
+ "C04": ("exploration",
+   "model-based and differential property-based testing (proptest): generated schemas, write histories (incl. transactions, index DDL, text DML) and condition trees; every execution strategy compared with a reference evaluator that is itself cross-checked against Condition::evaluate",
+   "Generated tables (1-4 columns over all column types, nullable or not, edge-case value pool) go through up to 40 writes (insert/batch/update/delete, explicit transactions with commit or rollback, UPDATE/DELETE as text, hash/btree index creation and drops incl. _id, materialise). 3-8 generated condition trees (all operators, AND/OR/True, _id, cross-type literals) are then answered through select, count, select_with_limit windows, select_iter, the streaming cursor, select_columnar (both preferences, projections), count_column/sum/avg/min/max and as text through both router entry points, and every answer is compared with the harness's own evaluator over a BTreeMap model; the full table is compared after every write. A second part repeats this on tables of 64-1300 rows so that bitmap words, SIMD tails and batch boundaries are crossed.",
+   "The reference evaluator is cross-checked against Condition::evaluate on every (row, condition); disagreement is reported as oracle-drift. Legacy text path only receives what its splitter can express. Failure signatures are diagnosed per execution path so that the ~8 recorded root causes do not hide other defects, at the cost of masking different bugs inside exactly those feature regions.",
+   "DESIGN.md section 1 C04"),
+ "C15": ("exploration",
+   "property-based testing (proptest) + coverage-guided fuzzing (libFuzzer via cargo-fuzz, thorough tier) + child-process nesting probes: totality/determinism/span oracle on generated and mutated inputs, print/parse round trip of generated expression trees with the documented precedence table, differential execution of generated statements as text vs direct engine calls",
+   "Totality: token soups, mutated/spliced corpus statements and arbitrary unicode go through tokenize/parse/parse_all/parse_expr: Ok or an error whose span lies inside the input, identical on re-parse, no panic; adversarial nesting (20 shapes x 4 entry points x 2 stack sizes, depth ladder to 100 000) runs in child processes so that a stack overflow is observed as a violation. Precedence: random expression trees to depth 8 are printed with minimal and with full parentheses by the harness's own printer implementing the documented table and must parse back to the same tree. Text = API: generated statements of every family run on one QueryRouter as text and on a twin through direct engine calls; results and final read-outs must agree. Thorough adds four libFuzzer campaigns whose artifacts are re-checked in the harness binary.",
+   "Stack overflows count only for inputs up to 32 KiB (the property says a few kilobytes); a probe over 20 s is inconclusive. The quick tier replays a committed seed corpus instead of fuzzing. Known findings: no depth guard in the statement parser, negative literals and contextual-keyword column names refused by the text path, IF [NOT] EXISTS ignored, NULLS FIRST/LAST inverted under DESC, legacy execute() misreads WHERE clauses.",
+   "DESIGN.md section 1 C15"),
  "C02": ("fault_enumeration",
    "property-based testing with fault injection: generated durable-write sequences under all sync modes; crash images at every/stratified byte of the crashing call's log bytes and at every crash-point hook inside checkpoint()/rotate(); recovered state must equal one recorded observable state not older than the last acknowledged write; chains of up to 3 crashes",
    "Generated put_durable/delete_durable/sync/checkpoint sequences over all key classes and value kinds run on a real durable TensorStore (immediate, batched and manual sync; normal and tiny log limits). The harness records the observable state (scan + get, bit-exact) after every call. At each generated crash point it builds crash images of the directory: the log cut at every byte (allcuts part / thorough) or at record boundaries +-1, header offsets and interior points of the bytes the call appended, and the directory exactly as it is at each crash_point hook inside checkpoint() and rotate(). TensorStore::recover runs on every image and must reproduce one of the recorded states from the last acknowledged call onwards; the generated image continues the chain with more writes and crashes.",
